@@ -135,7 +135,7 @@ func verifyEnforcedCanonicalJSON(input []byte) error {
 			valid = false
 			return false
 		}
-		if value.Num != 0 && strings.ContainsRune(value.Raw, 'e') {
+		if value.Num != 0 && (strings.ContainsRune(value.Raw, 'e') || strings.ContainsRune(value.Raw, 'E')) {
 			valid = false
 			return false
 		}
